@@ -556,6 +556,7 @@ class Check:
         self.known_hits = []
         self.notes = []
         self.known = load_known(pid)
+        self.deferred = []     # tool failures that only count if no violation was found
         ensure_dirs()
 
     def add_tlc(self, res, label=None):
@@ -605,6 +606,8 @@ class Check:
                 print('VIOLATION property=%s replay=%s' % (self.pid, path))
                 log('  witness:', json.dumps(w, default=str)[:600])
             return 1
+        if self.deferred:
+            raise ToolFailure('; '.join(self.deferred)[:3000])
         print('OK property=%s tier=%s seed=%d evaluations=%d states=%d traces=%d wall=%.1fs' % (
             self.pid, self.tier, self.seed, self.cov['evaluations'], self.cov['states'],
             self.cov['traces_validated_against_impl'], wall))
